@@ -16,6 +16,16 @@
 //! id, the first node, itself). Legitimate work on these documents is linear in the number of objects, so the CPU
 //! budget of an evaluation is CPU_MS_RUN plus 10 microseconds per object of the document.
 //!
+//! A page's content stream is part of the document value too, and text extraction and content decoding read it
+//! operation by operation: which operator, how many operands, of which kinds, after which earlier operation, with
+//! which font resource behind the selected font key. Family "content-ops" enumerates exactly that: every text
+//! operator of ISO 32000-1 tables 105-109 with EVERY operand list of up to 3 operands over 8 operand kinds (so every
+//! operator is seen with too few, exactly enough, too many and ill-kinded operands; plus longer lists of 4..7 equal
+//! operands), after every one-operation history (nothing, each text operator in its well-formed form, a Tf that
+//! selects a key the resources do not have), on 4 states of the font resource /F1 (one-byte encoding, ToUnicode
+//! CMap, not there, there but without a resolvable encoding), inside BT .. ET or bare. The content bytes are
+//! written here by hand, not by the library's encoder.
+//!
 //! Oracle (independent of the code under test): the property says every query "returns a value or an error";
 //! so the observation is made from OUTSIDE the query: each evaluation runs in a worker process with a CPU-time
 //! budget (ITIMER_PROF), a wall-clock backstop, an address-space limit and a 2 MiB stack, inside catch_unwind.
@@ -351,6 +361,8 @@ struct Family {
     custom: Option<(fn(&[usize]) -> Document, Vec<usize>, Vec<usize>)>,
     /// words for one member of a generated family (its documents are too large to be printed in full)
     label: Option<fn(&[usize]) -> String>,
+    /// the documents are large (thousands of objects): one document per worker process
+    big: bool,
     insts: Vec<(Kind, ObjectId)>,
 }
 
@@ -544,12 +556,93 @@ fn label_scale(dg: &[usize]) -> String {
     format!("n = {} nodes (objects {} to {}); {}; {}", SCALE_NODES[dg[0]], SCALE_FIRST, SCALE_FIRST as usize + SCALE_NODES[dg[0]] - 1, SCALE_SHAPES[dg[1]], SCALE_ENDS[dg[2]])
 }
 
+// ---- content-ops: the operations of the page's content stream; digits = [font state, history, operator, operand list, bracket]
+/// the text operators of ISO 32000-1 tables 105 to 109, each with its well-formed form (used as a history)
+const CO_OPERATORS: [(&str, &str); 17] = [
+    ("Tj", "(AB) Tj"), ("TJ", "[(A) -200 (B)] TJ"), ("'", "(AB) '"), ("\"", "1 2 (AB) \""), ("Tf", "/F1 12 Tf"), ("BT", "BT"), ("ET", "ET"), ("Tc", "1 Tc"), ("Tw", "1 Tw"),
+    ("Tz", "100 Tz"), ("TL", "12 TL"), ("Tr", "0 Tr"), ("Ts", "0 Ts"), ("Td", "1 2 Td"), ("TD", "1 2 TD"), ("Tm", "1 0 0 1 0 0 Tm"), ("T*", "T*"),
+];
+/// operand kinds, as they are written in a content stream; the quick tier uses the first CO_KINDS_QUICK
+const CO_KINDS: [&str; 8] = ["(AB)", "12", "/F1", "[(A) -200 (B)]", "<0041>", "-200", "1.5", "<</K 1>>"];
+const CO_KINDS_QUICK: usize = 4;
+const CO_LEN: usize = 3; // every operand list of up to this length (quick: one less)
+const CO_LEN_UNIFORM: usize = 7; // and lists of CO_LEN + 1 ..= this many equal operands
+const CO_FONTS: [&str; 4] = [
+    "/F1 is a Type1 font with /Encoding /WinAnsiEncoding",
+    "/F1 is a Type0 font with /Encoding /Identity-H and a /ToUnicode CMap stream",
+    "the /Font resource dictionary has no /F1",
+    "/F1 is a font dictionary without /Type (its encoding cannot be resolved)",
+];
+const CO_BRACKETS: [&str; 2] = ["inside BT .. ET", "bare"];
+
+/// histories: the operation that precedes the probed one
+fn co_histories() -> Vec<&'static str> {
+    let mut h = vec!["/F1 12 Tf", "", "/F2 12 Tf"];
+    for (op, form) in CO_OPERATORS { if op != "Tf" { h.push(form); } }
+    h
+}
+
+/// all operand lists, the ones of the quick tier first
+fn co_lists() -> &'static Vec<Vec<usize>> {
+    static L: std::sync::OnceLock<Vec<Vec<usize>>> = std::sync::OnceLock::new();
+    L.get_or_init(|| {
+        let mut all: Vec<Vec<usize>> = vec![vec![]];
+        let mut level: Vec<Vec<usize>> = vec![vec![]];
+        for _ in 0..CO_LEN {
+            let mut next = vec![];
+            for l in &level { for k in 0..CO_KINDS.len() { let mut x = l.clone(); x.push(k); next.push(x); } }
+            all.extend(next.iter().cloned());
+            level = next;
+        }
+        let quick = |l: &Vec<usize>| l.len() < CO_LEN && l.iter().all(|k| *k < CO_KINDS_QUICK);
+        all.sort_by_key(|l| !quick(l)); // stable: (length, lexicographic) within both halves
+        for len in CO_LEN + 1..=CO_LEN_UNIFORM { for k in 0..CO_KINDS.len() { all.push(vec![k; len]); } }
+        all
+    })
+}
+fn co_lists_quick() -> usize { (0..CO_LEN).map(|l| CO_KINDS_QUICK.pow(l as u32)).sum() }
+
+fn co_content(dg: &[usize]) -> String {
+    let hist = co_histories()[dg[1]];
+    let mut probe: Vec<&str> = co_lists()[dg[3]].iter().map(|k| CO_KINDS[*k]).collect();
+    probe.push(CO_OPERATORS[dg[2]].0);
+    let mut parts: Vec<String> = vec![];
+    if dg[4] == 0 { parts.push("BT".into()); }
+    if !hist.is_empty() { parts.push(hist.into()); }
+    parts.push(probe.join(" "));
+    if dg[4] == 0 { parts.push("ET".into()); }
+    parts.join(" ")
+}
+
+fn build_content_ops(dg: &[usize]) -> Document {
+    let mut o: BTreeMap<ObjectId, Object> = BTreeMap::new();
+    o.insert((1, 0), catalog());
+    o.insert((2, 0), pages_node());
+    let fonts = if dg[0] == 2 { Dictionary::new() } else { dictionary! { "F1" => r(6) } };
+    o.insert((3, 0), d(dictionary! { "Type" => n("Page"), "Parent" => r(2), "Contents" => r(4), "Resources" => d(dictionary! { "Font" => d(fonts) }) }));
+    o.insert((4, 0), st(Dictionary::new(), co_content(dg).as_bytes()));
+    match dg[0] {
+        0 => { o.insert((6, 0), font()); }
+        1 => {
+            o.insert((6, 0), d(dictionary! { "Type" => n("Font"), "Subtype" => n("Type0"), "BaseFont" => n("F"), "Encoding" => n("Identity-H"), "ToUnicode" => r(7) }));
+            o.insert((7, 0), st(Dictionary::new(), CMAP));
+        }
+        2 => {}
+        _ => { o.insert((6, 0), d(dictionary! { "Subtype" => n("Type1"), "BaseFont" => n("Helvetica"), "Encoding" => n("WinAnsiEncoding") })); }
+    }
+    make_doc(o, root_trailer())
+}
+
+fn label_content_ops(dg: &[usize]) -> String {
+    format!("{}; content stream of the page ({}): {}", CO_FONTS[dg[0]], CO_BRACKETS[dg[4]], co_content(dg))
+}
+
 /// documents larger than this are recorded as (family, index, tier) and regenerated on replay instead of being written out
 const INLINE_OBJECTS: usize = 400;
 
 fn families() -> Vec<Family> {
     let mut out = vec![];
-    let plain = |name, what, base: Vec<(u32, Object)>, slots, insts| Family { name, what, base: base.into_iter().map(|(k, v)| ((k, 0), v)).collect(), trailer: root_trailer(), slots, custom: None, label: None, insts };
+    let plain = |name, what, base: Vec<(u32, Object)>, slots, insts| Family { name, what, base: base.into_iter().map(|(k, v)| ((k, 0), v)).collect(), trailer: root_trailer(), slots, custom: None, label: None, big: false, insts };
 
     // ---- lookup: 3 objects at sparse ids (a gap and a non-zero generation), every object one of 8 kinds
     {
@@ -561,7 +654,7 @@ fn families() -> Vec<Family> {
         out.push(Family { name: "lookup", what: "objects 1 0, 2 0, 5 3 each one of {ref to each of the three, ref 5 0 (wrong generation), ref 9 0 (dangling), integer, dictionary, array}; lookups of the 3 ids and of 5 0 and 9 0",
             base: vec![], trailer: Dictionary::new(),
             slots: vec![Slot { tgt: Tgt::Whole((1, 0)), vals: w(), nq: 8 }, Slot { tgt: Tgt::Whole((2, 0)), vals: w(), nq: 8 }, Slot { tgt: Tgt::Whole((5, 3)), vals: w(), nq: 8 }],
-            custom: None, label: None, insts });
+            custom: None, label: None, big: false, insts });
     }
     // ---- chain: a chain of n references hanging under /Contents /Resources /Annots /Title /Dest /ToUnicode
     {
@@ -571,7 +664,7 @@ fn families() -> Vec<Family> {
         insts.extend(on(&[OutlineNode], 5));
         insts.extend(on(&[FontEncoding], 8));
         out.push(Family { name: "chain", what: "a chain of n in {1,2,3,6,127,128,129,130,300} references starting at object 10 and ending in {integer, dangling ref, ref back to 10, ref to itself, dictionary, stream, array}, used as /Contents /Resources /Annots of the page, /Title /Dest of an outline item and /ToUnicode of a font",
-            base: vec![], trailer: Dictionary::new(), slots: vec![], custom: Some((build_chain, vec![CHAIN_LENS.len(), CHAIN_ENDS], vec![CHAIN_LENS.len(), CHAIN_ENDS])), label: None, insts });
+            base: vec![], trailer: Dictionary::new(), slots: vec![], custom: Some((build_chain, vec![CHAIN_LENS.len(), CHAIN_ENDS], vec![CHAIN_LENS.len(), CHAIN_ENDS])), label: None, big: false, insts });
     }
     // ---- root: trailer /Root x kind of object 1 x catalog /Pages
     {
@@ -808,7 +901,7 @@ fn families() -> Vec<Family> {
         let mut insts = on(&[Catalog, GetPages, PageIter, ExtractText, Outlines, Toc], 0);
         for id in 1..=3 { insts.extend(on(&[PageContents, PageContent, PageResources, PageFonts, PageAnnots, PageImages, ObjectPage, NamedDests, FontEncoding, OutlineNode, Accessors], id)); }
         out.push(Family { name: "uniform", what: "3 dictionaries, object 1 the trailer /Root; dictionary j has /Type t_j in {Pages, Page, Font, absent} and binds all of 29 keys (Kids Parent Count Contents Resources Font XObject ColorSpace Annots Outlines Dests Names Pages Dest A D S Title Encoding ToUnicode Filter DecodeParms Length F1 Im1 Subtype Width Height BitsPerComponent) to one value v_j in {ref 1, ref 2, [ref 1 ref 2 ref 3], dangling ref, ref 3, no keys}: all 24^3 graphs",
-            base: vec![], trailer: Dictionary::new(), slots: vec![], custom: Some((build_uniform, vec![6, 4, 6, 4, 6, 4], vec![4, 3, 4, 3, 4, 3])), label: None, insts });
+            base: vec![], trailer: Dictionary::new(), slots: vec![], custom: Some((build_uniform, vec![6, 4, 6, 4, 6, 4], vec![4, 3, 4, 3, 4, 3])), label: None, big: false, insts });
     }
     // ---- scale: the number of linked nodes and the sharing of nodes, per link kind
     {
@@ -818,7 +911,16 @@ fn families() -> Vec<Family> {
         insts.extend(on(&[NamedDests, OutlineNode, PageResources], SCALE_FIRST));
         out.push(Family { name: "scale", what: "n linked nodes, n in {1,2,3,8,12,40,64,255,256,257,258,1000,4000,16000; thorough also 65536, 262144} x shape in 7 {page tree of n nested /Pages nodes with /Parent links back up and /Resources only on the root, its /Kids arrays listing the kid once | twice; outline of n items linked by /First | by /Next | by /First and /Next to the same item; name tree of n nested /Kids nodes listing the kid once | twice} x last link in 4 {proper leaf, dangling, back to the first node, to itself}; the doubled links make an acyclic graph of n nodes with 2^n paths; CPU budget grows by 10 us per object",
             base: vec![], trailer: Dictionary::new(), slots: vec![],
-            custom: Some((build_scale, vec![SCALE_NODES.len(), SCALE_SHAPES.len(), SCALE_ENDS.len()], vec![SCALE_NODES_QUICK, SCALE_SHAPES.len(), SCALE_ENDS.len()])), label: Some(label_scale), insts });
+            custom: Some((build_scale, vec![SCALE_NODES.len(), SCALE_SHAPES.len(), SCALE_ENDS.len()], vec![SCALE_NODES_QUICK, SCALE_SHAPES.len(), SCALE_ENDS.len()])), label: Some(label_scale), big: true, insts });
+    }
+    // ---- content-ops: operator x operand list x preceding operation x font resource of the page's content stream
+    {
+        let mut insts = on(&[ExtractText, ExtractChunks, DecodeContent], 3);
+        insts.extend(on(&[StreamDecode], 4));
+        out.push(Family { name: "content-ops", what: "the page's content stream is [BT] history probe [ET], written out by hand: font resource /F1 in 4 {Type1 font with WinAnsiEncoding, Type0 font with Identity-H and a ToUnicode CMap, no /F1 in the /Font dictionary, a font dictionary without /Type whose encoding cannot be resolved} x history in 19 {/F1 12 Tf, nothing, /F2 12 Tf (a key the resources do not have), each of the other 16 text operators in its well-formed form} x probed operator in 17 {Tj TJ ' \" Tf BT ET Tc Tw Tz TL Tr Ts Td TD Tm T*: ISO 32000-1 tables 105 to 109} x operand list of the probed operator in 617 {every list of 0, 1, 2 or 3 operands over the 8 kinds (AB), 12, /F1, [(A) -200 (B)], <0041>, -200, 1.5, <</K 1>> (585), and 4, 5, 6 or 7 times the same operand of each kind (32); quick: the 21 lists of 0, 1 or 2 operands over the first 4 kinds} x bracket in 2 {inside BT .. ET, bare; quick: inside}; so every operator is met with fewer operands than it takes, exactly as many, more, and operands of the wrong kinds, with and without a decodable font selected before it",
+            base: vec![], trailer: Dictionary::new(), slots: vec![],
+            custom: Some((build_content_ops, vec![CO_FONTS.len(), co_histories().len(), CO_OPERATORS.len(), co_lists().len(), CO_BRACKETS.len()], vec![CO_FONTS.len(), co_histories().len(), CO_OPERATORS.len(), co_lists_quick(), 1])),
+            label: Some(label_content_ops), big: false, insts });
     }
     out
 }
@@ -990,6 +1092,7 @@ fn case_json(fam: &Family, thorough: bool, idx: u64, k: usize) -> Value {
                       "object_count": doc.objects.len(), "document": fam.label.map(|l| l(&fam.digits(idx, thorough))).unwrap_or_default()});
     }
     json!({"family": fam.name, "index": idx, "thorough": thorough, "query": kind_name(kind), "arg": [arg.0, arg.1],
+           "document": fam.label.map(|l| l(&fam.digits(idx, thorough))).unwrap_or_default(),
            "objects": doc.objects.iter().map(|(id, o)| json!({"id": id.0, "gen": id.1, "obj": obj_json(o)})).collect::<Vec<_>>(),
            "trailer": doc.trailer.iter().map(|(k, v)| json!([hex(k), obj_json(v)])).collect::<Vec<_>>()})
 }
@@ -1047,8 +1150,8 @@ pub fn run(thorough: bool) -> Report {
     let mut chunks: Vec<(usize, u64, u64)> = vec![];
     for (fi, f) in fams.iter().enumerate() {
         let total = f.count(thorough);
-        // the documents of a labelled (generated) family are large: one document per worker
-        let size = if f.label.is_some() { 1 } else { (total / 256).clamp(8, 1500) };
+        // the documents of family scale are large: one document per worker
+        let size = if f.big { 1 } else { (total / 256).clamp(8, 1500) };
         let mut lo = 0;
         while lo < total { let hi = (lo + size).min(total); chunks.push((fi, lo, hi)); lo = hi; }
     }
